@@ -34,7 +34,7 @@ Notation M_append := (M_append L leq as_pos).
 Notation M_extend := (M_extend L leq as_pos).
 Notation M_contains := (M_contains L leq as_pos).
 Notation M_contains_state := (M_contains_state L as_pos).
-Notation dom_extend := (dom_extend L leq as_pos).
+Notation ext_safe := (ext_safe L leq as_pos).
 Notation dom_items := (dom_items L V leq as_pos cast resolve).
 Notation dom_gop := (dom_gop L V leq as_pos cast resolve).
 Notation dom_run := (dom_run L V leq as_pos cast resolve).
@@ -405,6 +405,21 @@ Proof.
     + unfold fgo_wf; cbn. refine (conj (wf_refresh L leq as_pos c Hc) (conj Ht (conj _ Hr))).
       now rewrite (refresh_cnt L c).
     + unfold GrowOnly.abs_fgo; cbn. now rewrite (refresh_lm L c).
+Qed.
+
+(* FrameGO.extend(Frame) is all-or-nothing, with NO guard when the columns have a map (every frame built
+   with explicit column labels, or grown at least once with a label that is not the next integer) *)
+Theorem fgo_extend_frame_atomic : forall f fidx fcols blocks fill fdt,
+  fgo_wf f -> g_map (f_cols f) <> None -> extframe_wfb fidx fcols blocks = true ->
+  let r := M_step f (OExtFrame fidx fcols blocks fill fdt) in
+  fstep_refines r (S_step (abs_fgo f) (OExtFrame fidx fcols blocks fill fdt)) /\
+  (is_ok (snd r) = false -> abs_fgo (fst r) = abs_fgo f).
+Proof.
+  intros f fidx fcols blocks fill fdt Hwf Hm Hx.
+  assert (Hd : dom_gop f (OExtFrame fidx fcols blocks fill fdt) = true).
+  { cbn. rewrite Hx. unfold GrowOnly.ext_safe. destruct (g_map (f_cols f)); [reflexivity | congruence]. }
+  pose proof (M_step_refines f _ Hwf Hd) as Href. split; [exact Href|].
+  intros Hf. destruct Href as (_ & Ha & Ho). rewrite Ha. apply S_step_all_or_nothing. congruence.
 Qed.
 
 (* REFINEMENT over every history inside the guard *)
